@@ -153,7 +153,12 @@ class CSSCharsetRule(cssrule.CSSRule):
                 codecs.lookup(encoding)
                 # must be a text encoding usable with the 'escapecss' error handler
                 'a\u20ac'.encode(encoding, 'escapecss').decode(encoding)
-            except (LookupError, UnicodeError):
+                # the css codec must find the declaration again in the encoded sheet
+                probe = '@charset "%s";' % encoding.lower()
+                found = codecs.getdecoder('css')(probe.encode(encoding))[0]
+                if not found.lstrip('\ufeff').startswith('@charset "'):
+                    raise UnicodeError('not detectable from the encoded sheet')
+            except (LookupError, UnicodeError, ValueError):
                 self._log.error(
                     'CSSCharsetRule: Unknown (Python) encoding %r.' % encoding
                 )
